@@ -14,11 +14,19 @@ use info::Info;
 use limits::SearchLimits;
 use move_orderer::MoveOrderer;
 
+#[cfg(not(rce_verif))]
 use std::sync::{
     atomic::{AtomicBool, Ordering},
     Arc,
 };
+#[cfg(not(rce_verif))]
 use std::time::Instant;
+#[cfg(rce_verif)]
+use crate::verif_hooks::{
+    self as vh,
+    atomic::{AtomicBool, Ordering},
+    Arc, Instant, Site,
+};
 
 pub type Depth = u8;
 pub type Score = i16;
@@ -240,6 +248,8 @@ impl Search {
             self.info.depth -= 1;
 
             if !self.is_running() || self.limits_exceeded(start) {
+                #[cfg(rce_verif)]
+                vh::abort_observed(Site::RootAfterChild, self.info.depth);
                 // Don't throw out a partial search just because the current move was not searched
                 if self.info.best_score.is_some_and(|s| alpha > s) {
                     self.info.best_score = Some(alpha);
@@ -262,6 +272,20 @@ impl Search {
 
         // Don't save incomplete searches
         if self.is_running() && !self.limits_exceeded(start) {
+            #[cfg(rce_verif)]
+            vh::tt_insert(
+                Site::Root,
+                self.board.zkey,
+                &TTEntry {
+                    score: alpha,
+                    depth,
+                    bound: Bounds::Exact,
+                    best_ply,
+                },
+                self.info.nodes,
+                self.limits.nodes,
+                self.running.peek(),
+            );
             TRANSPOSITION_TABLE
                 .write()
                 .expect("Transposition table is poisoned! Unable to write new entry.")
@@ -311,6 +335,8 @@ impl Search {
         start: Instant,
     ) -> Score {
         if !self.is_running() || self.limits_exceeded(start) {
+            #[cfg(rce_verif)]
+            vh::abort_observed(Site::AlphaBetaEntry, self.info.depth);
             return 0;
         }
 
@@ -412,6 +438,20 @@ impl Search {
 
             // Move is too good, opponent will not allow the game to reach this position
             if score >= beta {
+                #[cfg(rce_verif)]
+                vh::tt_insert(
+                    Site::AlphaBetaCutoff,
+                    self.board.zkey,
+                    &TTEntry {
+                        score,
+                        depth,
+                        bound: Bounds::Lower,
+                        best_ply: mv,
+                    },
+                    self.info.nodes,
+                    self.limits.nodes,
+                    self.running.peek(),
+                );
                 TRANSPOSITION_TABLE
                     .write()
                     .expect("Transposition table is poisoned! Unable to write new entry.")
@@ -445,6 +485,24 @@ impl Search {
             return 0; // Stalemate
         }
 
+        #[cfg(rce_verif)]
+        vh::tt_insert(
+            Site::AlphaBetaEnd,
+            self.board.zkey,
+            &TTEntry {
+                score: alpha,
+                depth,
+                bound: if alpha <= alpha_start {
+                    Bounds::Upper
+                } else {
+                    Bounds::Exact
+                },
+                best_ply,
+            },
+            self.info.nodes,
+            self.limits.nodes,
+            self.running.peek(),
+        );
         TRANSPOSITION_TABLE
             .write()
             .expect("Transposition table is poisoned! Unable to write new entry.")
@@ -473,6 +531,8 @@ impl Search {
         start: Instant,
     ) -> Score {
         if !self.is_running() || self.limits_exceeded(start) {
+            #[cfg(rce_verif)]
+            vh::abort_observed(Site::QuiescenceEntry, self.info.depth);
             return 0;
         }
 
